@@ -488,7 +488,17 @@ def _universe(name):
         return (2, 2, 2), t3(2, 2, 2, "-v")
     if name == "T4c(2,2,2,2;<=4|>=15)":
         return (2, 2, 2, 2), R.t4c_specs((2, 2, 2, 2), at_most=4, at_least=15)
+    if name == "T4c(3,1,2,1;<=3)":
+        return (3, 1, 2, 1), R.t4c_specs((3, 1, 2, 1), at_most=3)
     raise ValueError(name)
+
+
+# NOT RUN BY DEFAULT (only with `--only pending`): sub-families on which the UNCHANGED tree deviates, reported to the
+# lead and awaiting a decision (fix or known finding).
+#  * T4c(3,1,2,1;<=3) x merge: three upper coordinates whose payloads are fibers of fibers collide under
+#    mergeRanks(depth=0, levels=1, 'absolute'): TypeError in Fiber._mergeToFibertree (the n-ary union hands None for
+#    the absent leaves of the third operand); minimal: points (0,0,1,0), (1,0,1,0), (2,0,0,0).
+PENDING_PLAN = [("T4c(3,1,2,1;<=3)", ("ts", "te", "f"), ("merge",), None)]
 
 
 def _is_empty_spec(spec):
@@ -534,6 +544,9 @@ def run(ctx):
                 ("T3(2,2,2)", allf, GROUPS, None),
                 ("T4c(2,2,2,2;<=4|>=15)", ("ts", "f"), GROUPS, 900)]
     only = getattr(ctx, "only", None)
+    if only and "pending" in only:
+        plan = list(PENDING_PLAN)
+        only = None
     from mc import compose as _cd
     ctx.bounds = {
         "compose": _cd.describe(q),
